@@ -468,7 +468,7 @@ example : (Edit.run fP {} (fOps.take 5)).ex.data = [((1, []), .int 2)] ∧
   decide
 
 theorem fOps_admissible : Edit.Admissible fP idLt {} fOps :=
-  Edit.admissible_of_sources fP idLt Edit.eP_noCatch Edit.eP_scoped Edit.eP_noCalls fOps {} Edit.allocOK_empty
+  Edit.admissible_of_sources fP idLt Edit.eP_noCatch Edit.eP_scoped Edit.eP_noCalls fOps {} Edit.allocOK_empty rfl
 
 example : Edit.CIW fP idLt (Edit.run fP {} fOps) :=
   (C02.machine_reachable_ci fP idLt idLt_strict fOps fOps_admissible).1
@@ -476,7 +476,7 @@ example : Edit.CIW fP idLt (Edit.run fP {} fOps) :=
 example (key : Key) : lookup (Edit.run fP {} (fOps.take 7)).ex.data (1, key) = none :=
   uncached_members_hold_nothing fP idLt _
     (C02.machine_reachable_ci fP idLt idLt_strict (fOps.take 7)
-      (Edit.admissible_of_sources fP idLt Edit.eP_noCatch Edit.eP_scoped Edit.eP_noCalls _ {} Edit.allocOK_empty)).1
+      (Edit.admissible_of_sources fP idLt Edit.eP_noCatch Edit.eP_scoped Edit.eP_noCalls _ {} Edit.allocOK_empty rfl)).1
     1 (by decide) key
 
 end combined
